@@ -531,12 +531,52 @@ func BuildPool(e *Eco, r *RNG, n int, extra []string) (*Pool, []string) {
 	for _, s := range extra {
 		add(s)
 	}
+	clust0, nClust := r.Intn(nClusters), 0
+	nSib, nDec := 0, 0
+	// the maintainers' own test inputs: a seed-dependent sample joins the pool, all of them are
+	// available to the crossover
+	hv, _ := harvestedFor(e)
+	if len(hv) > 0 {
+		for _, i := range r.Perm(len(hv)) {
+			if len(p.Strs) >= n/4 {
+				if !seen[hv[i]] {
+					seen[hv[i]] = true
+					all = append(all, hv[i])
+				}
+				continue
+			}
+			add(hv[i])
+		}
+	}
 	for tries := 0; tries < 60*n && len(p.Strs) < n; tries++ {
 		s := gen(r)
 		if r.Chance(8) {
 			s = mutate(r, s)
 		}
 		add(s)
+		// versions that differ only in one number, taken from both sides of one machine-word or
+		// decimal-width boundary (boundary.go)
+		switch {
+		case tries%16 == 5 && len(all) > 4:
+			// crossover of two candidates seen so far (corpus, harvested test literals, generated)
+			add(splice(r, all[r.Intn(len(all))], all[r.Intn(len(all))]))
+		case tries%16 == 9 && nSib < 1+n/20:
+			for _, t := range prefixSiblings(r, s) {
+				add(t)
+			}
+			nSib++
+		case tries%16 == 13 && nDec < 1+n/12:
+			for _, t := range decorations(r, s) {
+				add(t)
+			}
+			nDec++
+		}
+		if tries%8 == 3 && nClust < 1+n/7 {
+			for _, t := range boundaryVariants(r, s, 3, clust0+nClust) {
+				add(t)
+			}
+			nClust++
+		}
 	}
 	return p, all
 }
